@@ -31,7 +31,7 @@ func prioHostWith(prio uint32) ice.Candidate {
 }
 
 func runPrio(c *Ctx) error {
-	c.Rule = "cand: type x network x tcptype x relay protocol x agent/no agent x offset x component (offsets 0..130 + boundaries + random; thorough: all 65536 offsets); non-trivial = TCP network type with an agent offset (the offset takes part) or a relay/TCP local preference; pair: boundary and random uint32 pairs, both roles; mirror: same pair seen by both roles; found: foundation strings. Distinct = distinct case token lines."
+	c.Rule = "cand: type x network x tcptype x relay protocol x agent/no agent x offset x component (offsets 0..130 + boundaries + random; thorough: all 65536 offsets); non-trivial = TCP network type with an agent offset (the offset takes part) or a relay/TCP local preference; pair: boundary and random uint32 pairs, both roles; mirror: same pair seen by both roles; found: foundation strings; candx: the three values read once, then the component set and the agent attached, then read again (they must follow the current configuration). Distinct = distinct case token lines."
 	if c.Replay != "" {
 		for _, t := range c.ReplayLines() {
 			if err := prioCase(c, t); err != nil {
@@ -87,6 +87,22 @@ func runPrio(c *Ctx) error {
 							if err := prioCase(c, []string{"cand", strconv.Itoa(ty), strconv.Itoa(nt), strconv.Itoa(tcp), Hex(proto), strconv.Itoa(ha), strconv.Itoa(off), strconv.Itoa(rc)}); err != nil {
 								return err
 							}
+						}
+					}
+				}
+			}
+		}
+	}
+	// the same values re-read after the candidate's configuration changed (component set later, agent attached
+	// later): they must follow the current configuration
+	for ty := 0; ty <= 4; ty++ {
+		for nt := 1; nt <= 4; nt++ {
+			for _, ha := range []int{0, 1} {
+				for _, off := range []int{0, 5, 27, 99, 127, 65535} {
+					for _, cc := range [][2]int{{1, 2}, {2, 1}, {255, 1}, {1, 256}, {0, 7}} {
+						tcp, pi := (ty+nt)%4, (ty+off)%4
+						if err := prioCase(c, []string{"candx", strconv.Itoa(ty), strconv.Itoa(nt), strconv.Itoa(tcp), Hex(protos[pi]), strconv.Itoa(ha), strconv.Itoa(off), strconv.Itoa(cc[1]), strconv.Itoa(cc[0])}); err != nil {
+							return err
 						}
 					}
 				}
@@ -169,6 +185,11 @@ func prioCase(c *Ctx, t []string) error {
 		}
 		c.Count("cand:" + tag)
 		c.Emit(tag, t, []string{fmt.Sprint(tp), fmt.Sprint(lp), fmt.Sprint(pr)}, (isTCP && ha) || ty == 4)
+	case "candx":
+		ty, nt, tcp, proto, ha, off, comp, comp0 := atoi(t[1]), atoi(t[2]), atoi(t[3]), Unhex(t[4]), t[5] == "1", atoi(t[6]), atoi(t[7]), atoi(t[8])
+		tp, lp, pr := ice.VerifPriorityRestated(ice.CandidateType(ty), ice.NetworkType(nt), ice.TCPType(tcp), proto, ha, uint16(off), uint16(comp), uint16(comp0))
+		c.Count("candx")
+		c.Emit("candx", t, []string{fmt.Sprint(tp), fmt.Sprint(lp), fmt.Sprint(pr)}, true)
 	case "pair":
 		ctl := t[1] == "1"
 		l64, _ := strconv.ParseUint(t[2], 10, 32)
